@@ -74,6 +74,14 @@ def check(ctx, F):
     check_defaults(ctx, F)
     routing.check_descend(ctx, F, "C01.descend")
     check_ortho_descend(ctx, F)
+    from .common import check_accessors
+    check_accessors(ctx, F, "C01.writers")        # every overload of an accessor addresses the region's own slot
+    # a nested region reports its *own* prong to the region that resolves it (shared with C12.compose): the parent stores what is reported
+    from . import C12, C03 as _C03, C04
+    C12.check_compose(_C03._Alias(ctx, {"C12.compose": "C01.no-invalid"}), F)
+    # the commit (deepEnter / deepChangeToRequested) runs on the requests of an approved round only: the round protocol of initialEnter /
+    # processTransitions (shared with C04.round) - a restore of a back-up taken too early commits INVALID prongs
+    C04.check_round(_C03._Alias(ctx, {"C04.round": "C01.enter-sets"}), F)
     # the prong a resolver stored reaches the sub-state it names: CS_ dispatch by prong < R_PRONG (rule instances shared with C02 / C03)
     from . import C03
     C03.check_cs_dispatch(C03._Alias(ctx, {"C03.cs-dispatch": "C01.descend"}), F)
